@@ -303,6 +303,7 @@ impl UringWorker {
         reply_tx,
       } => {
         let ProtocolConfig::Zmtp(engine_cfg) = protocol_config;
+        #[cfg(rzmq_verif)] crate::verif::uring::trace(0, fd as i64, 0);
 
         let sndhwm = engine_cfg.sndhwm.max(1);
         let (egress_tx, egress_rx) = fibre::mpsc::bounded::<crate::message::FrameBatch>(sndhwm);
